@@ -89,7 +89,34 @@ pub enum ObjSpec {
         spec: SplineSpec,
         xs: Vec<Fx>,
     },
+    /// a very large object described by its size alone (contents are a fixed function of it):
+    /// what 0 = Dual2 with n variables and a full symmetric Hessian, 1 = Dual with n variables,
+    /// 2 = Cal with n holidays (UnionCal of `members` such calendars if members > 0),
+    /// 3 = PPSplineF64 with n knots, 4 = float Curve with n hourly nodes
+    Big { what: u8, n: u64, members: u8 },
 }
+
+/// (what, n, members): durable states just above 16, 32, 64, 128 and 256 MiB.
+pub const BIG_LADDER_QUICK: &[(u8, u64, u8)] = &[(0, 1_500, 0), (0, 2_100, 0), (2, 650_000, 0), (2, 2_600_000, 0)];
+pub const BIG_LADDER_THOROUGH: &[(u8, u64, u8)] = &[
+    (0, 1_500, 0),
+    (0, 2_100, 0),
+    (0, 3_000, 0),
+    (0, 4_200, 0),
+    (0, 6_000, 0),
+    (1, 1_000_000, 0),
+    (1, 4_000_000, 0),
+    (2, 650_000, 0),
+    (2, 1_300_000, 0),
+    (2, 2_600_000, 0),
+    (2, 2_600_000, 2),
+    (2, 2_600_000, 4),
+    (3, 3_000_000, 0),
+    (3, 10_000_000, 0),
+    (3, 20_000_000, 0),
+    (4, 1_200_000, 0),
+    (4, 2_500_000, 0),
+];
 
 #[derive(Clone, Debug, Serialize, Deserialize, PartialEq)]
 pub enum Op {
@@ -347,7 +374,7 @@ pub fn generate(rng: &mut Rng, tier: Tier) -> Plan {
             }
         }
         4 => {
-            let base = c12::generate(rng, Tier::Quick);
+            let base = c12::generate_with(rng, Tier::Quick, true);
             let mut setup = base.setup;
             // arbitrary finite contents for a share of the curves
             if rng.chance(0.4) {
@@ -683,6 +710,80 @@ pub fn build_obj(spec: &ObjSpec) -> Result<Obj, Fail> {
             }
         }
         ObjSpec::Spline { spec, .. } => Obj::Spline(build_spline(spec)?),
+        ObjSpec::Big { what, n, members } => build_big(*what, *n as usize, *members as usize)?,
+    })
+}
+
+fn build_big(what: u8, n: usize, members: usize) -> Result<Obj, Fail> {
+    Ok(match what {
+        0 => {
+            let names: Vec<String> = (0..n).map(|i| format!("v{}", i)).collect();
+            let dual: Vec<f64> = (0..n).map(|i| 1.0 + 0.5 * (i % 13) as f64).collect();
+            let mut h = vec![0.0_f64; n * n];
+            for i in 0..n {
+                for j in i..n {
+                    let x = 0.25 * (((i * 31 + j * 17) % 97) as f64) - 3.0;
+                    h[i * n + j] = x;
+                    h[j * n + i] = x;
+                }
+            }
+            let x = Dual2::try_new(1.25, names, dual, h).map_err(|_| herr("big Dual2 refused"))?;
+            Obj::Number {
+                x: Number::Dual2(x),
+                y: Number::Dual2(Dual2::new(1.5, vec!["w".to_string()])),
+            }
+        }
+        1 => {
+            let names: Vec<String> = (0..n).map(|i| format!("v{}", i)).collect();
+            let dual: Vec<f64> = (0..n).map(|i| 1.0 + 0.5 * (i % 13) as f64).collect();
+            let x = Dual::try_new(1.25, names, dual).map_err(|_| herr("big Dual refused"))?;
+            Obj::Number {
+                x: Number::Dual(x),
+                y: Number::Dual(Dual::new(1.5, vec!["w".to_string()])),
+            }
+        }
+        2 => {
+            // every day except Wednesdays from 0001-01-01 on (2.6 million of them end in year
+            // 8306): Python's datetime can hold them all and no closure exceeds six days
+            let cal = |offset_secs: i64| -> Cal {
+                let hols = (-719_162_i64..)
+                    .filter(|d| (d + 3).rem_euclid(7) != 2)
+                    .take(n)
+                    .map(|d| ts_to_ndt(d * 86_400 + offset_secs))
+                    .collect();
+                Cal::new(hols, vec![5, 6])
+            };
+            if members == 0 {
+                Obj::Cal(cal(0))
+            } else {
+                Obj::Union(UnionCal::new((0..members as i64).map(cal).collect(), None))
+            }
+        }
+        3 => {
+            let t: Vec<f64> = (0..n).map(|i| i as f64 * 0.5).collect();
+            Obj::Spline(Spl::F(hooks::ppspline_f64_wrap(PPSpline::new(4, t, None))))
+        }
+        _ => {
+            let mut m: indexmap::IndexMap<chrono::NaiveDateTime, Number> = indexmap::IndexMap::with_capacity(n);
+            for i in 0..n as i64 {
+                m.insert(
+                    ts_to_ndt(946_684_800 + i * 3_600),
+                    Number::F64(1.0 / (1.0 + 1e-7 * i as f64)),
+                );
+            }
+            let c = hooks::VerifCurve::new(
+                m,
+                "log_linear",
+                rateslib::dual::ADOrder::Zero,
+                "big",
+                c12::convention_of(0),
+                c12::modifier_of(0),
+                CalType::NamedCal(named("all").map_err(herr)?),
+                None,
+            )
+            .map_err(herr)?;
+            Obj::Curve(c12::Sut::Py(c))
+        }
     })
 }
 
@@ -1073,7 +1174,48 @@ fn answers(o: &Obj, plan: &Plan) -> Vec<(String, u64)> {
         Obj::Union(c) => out = cal_answers(c, &plan.probes),
         Obj::Named(c) => out = cal_answers(c, &plan.probes),
         Obj::Curve(c) => {
-            if let ObjSpec::Curve { queries, .. } = &plan.obj {
+            if let ObjSpec::Big { n, .. } = &plan.obj {
+                for q in [0i64, 1, (*n as i64) / 2, *n as i64 - 1] {
+                    let d = ts_to_ndt(946_684_800 + q * 3_600 + 1_800);
+                    let mut h = Fnv::new();
+                    digest_number(&mut h, &c.value(&d));
+                    out.push((format!("curve look-up at {}", d), h.finish()));
+                }
+                if let c12::Sut::Py(pc) = c {
+                    let mut h = Fnv::new();
+                    for (k, v) in pc.nodes() {
+                        h.u64(k.and_utc().timestamp() as u64);
+                        digest_number(&mut h, &v);
+                    }
+                    out.push(("all curve nodes".into(), h.finish()));
+                }
+            }
+            if let ObjSpec::Curve { setup, queries, .. } = &plan.obj {
+                if setup.interp == "null" {
+                    // no look-up is possible: the nodes, and the index value before the first node
+                    let first = setup.nodes.iter().map(|n| n.ts).min().unwrap_or(0);
+                    if let c12::Sut::Py(pc) = c {
+                        let mut h = Fnv::new();
+                        for (k, v) in pc.nodes() {
+                            h.u64(k.and_utc().timestamp() as u64);
+                            digest_number(&mut h, &v);
+                        }
+                        out.push(("all curve nodes".into(), h.finish()));
+                    }
+                    for q in queries.iter().filter(|q| **q < first) {
+                        let d = ts_to_ndt(*q);
+                        let mut h = Fnv::new();
+                        match c.index_value(&d) {
+                            Ok(n) => digest_number(&mut h, &n),
+                            Err(_) => h.u64(0xE44),
+                        }
+                        out.push((format!("index value before the first node at {}", d), h.finish()));
+                    }
+                    let mut h = Fnv::new();
+                    h.u64(order_num(c.ad()) as u64);
+                    out.push(("curve ad order".into(), h.finish()));
+                    return out;
+                }
                 for q in queries {
                     let d = ts_to_ndt(*q);
                     let mut h = Fnv::new();
@@ -2008,6 +2150,29 @@ pub fn shrink(plan: &Plan) -> Vec<Plan> {
                 out.push(p);
             }
         }
+        ObjSpec::Big { what, n, members } => {
+            // smaller by halves, then by a tenth: the minimiser stops just above the threshold
+            for nn in [*n / 2, *n * 3 / 4, *n * 9 / 10, *n * 99 / 100] {
+                if nn >= 1 && nn < *n {
+                    let mut p = plan.clone();
+                    p.obj = ObjSpec::Big {
+                        what: *what,
+                        n: nn,
+                        members: *members,
+                    };
+                    out.push(p);
+                }
+            }
+            if *members > 0 {
+                let mut p = plan.clone();
+                p.obj = ObjSpec::Big {
+                    what: *what,
+                    n: *n,
+                    members: *members - 1,
+                };
+                out.push(p);
+            }
+        }
     }
     out
 }
@@ -2051,6 +2216,27 @@ impl Scenario for C16 {
         }
     }
     fn unit(seed: u64, tier: Tier, unit: u64, sink: &mut dyn FnMut(Plan) -> bool) {
+        // the size ladder: a fixed handful of very large objects, spread over the unit range
+        // (and so over the workers); each is pickled, or saved in the binary state directly
+        let ladder = match tier {
+            Tier::Quick => BIG_LADDER_QUICK,
+            Tier::Thorough => BIG_LADDER_THOROUGH,
+        };
+        let stride = (Self::units(tier) / 17).max(1);
+        if unit % stride == 11 && ((unit / stride) as usize) < ladder.len() {
+            let (what, n, members) = ladder[(unit / stride) as usize];
+            let medium = if mix(seed, "C16-big", unit) % 4 == 0 {
+                Medium::Bincode
+            } else {
+                Medium::Pickle
+            };
+            sink(Plan {
+                obj: ObjSpec::Big { what, n, members },
+                ops: vec![Op::Restart { medium, which: 0 }],
+                probes: vec![946_684_800, 946_684_800 + 86_400 * 3, 4_102_444_800],
+            });
+            return;
+        }
         let mut rng = Rng::new(mix(seed, "C16", unit));
         sink(generate(&mut rng, tier));
     }
@@ -2063,6 +2249,12 @@ impl Scenario for C16 {
     fn nontrivial(plan: &Plan) -> bool {
         plan.ops.iter().any(|o| matches!(o, Op::Restart { .. }))
     }
+    fn budget(plan: &Plan) -> u64 {
+        match &plan.obj {
+            ObjSpec::Big { .. } => 60,
+            _ => 1,
+        }
+    }
     fn label(plan: &Plan) -> String {
         match &plan.obj {
             ObjSpec::Number { .. } => "life:number",
@@ -2074,6 +2266,7 @@ impl Scenario for C16 {
             ObjSpec::Curve { .. } => "life:Curve",
             ObjSpec::Fx(_) => "life:FXRates",
             ObjSpec::Spline { .. } => "life:PPSpline",
+            ObjSpec::Big { .. } => "life:very-large-object",
         }
         .into()
     }
@@ -2087,6 +2280,7 @@ impl Scenario for C16 {
             "bincode bytes of objects containing a Cal are not compared between generations (HashSet order differs per process); JSON text is compared after sorting week_mask arrays".into(),
             "arithmetic cross-checks are skipped when a result is not finite".into(),
             "the twin that never restarts is the oracle: an operation that panics on it ends the life without a verdict".into(),
+            "the size ladder (fixed very large objects with binary states just above 16/32/64/128/256 MiB) goes through pickle and bincode only; JSON of such objects is not produced".into(),
         ]
     }
     fn extra_coverage(_tier: Tier) -> serde_json::Value {
